@@ -15,7 +15,6 @@ import (
 	"github.com/ipld/go-ipld-prime/traversal/selector"
 	selectorbuilder "github.com/ipld/go-ipld-prime/traversal/selector/builder"
 	"github.com/ipni/go-libipni/dagsync"
-	ic "github.com/libp2p/go-libp2p/core/crypto"
 	"github.com/libp2p/go-libp2p/core/peer"
 
 	"verif/harness/syncdrv"
@@ -48,8 +47,9 @@ type CfgJ struct {
 }
 
 type CallJ struct {
-	T       string `json:"t"`                  // ad | entries | one | all | remove (RemoveHandler) | idle (sleep past IdleHandlerTTL) | hide (the publisher's hidden set changes)
-	Hide    []int  `json:"hide,omitempty"`     // t = hide: the blocks the publisher does not serve from now on
+	T    string `json:"t"`              // ad | entries | one | all | remove (RemoveHandler) | idle (sleep past IdleHandlerTTL) | hide (the publisher's hidden set changes)
+	Hide []int  `json:"hide,omitempty"` // t = hide: the blocks the publisher does not serve from now on
+	// t = race: SetRoot(PubHead); a head request parks in the publisher's Sign; SetRoot(Head) returns; the request is released
 	Sel     string `json:"sel,omitempty"`      // t = sel (Syncer.Sync with a built selector, root Ent, stop Stop, limit Depth): dagsync | stopnode-nil | withstop-prev | withstop-next
 	Head    int    `json:"head,omitempty"`     // WithHeadAdCid (rank; 0 = query the publisher)
 	Stop    int    `json:"stop,omitempty"`     // WithStopAdCid
@@ -86,7 +86,7 @@ type builtWorld struct {
 
 var (
 	worlds = map[string]*builtWorld{}
-	pubKey ic.PrivKey
+	pubKey *syncdrv.GatedKey
 )
 
 func getWorld(desc []BlockJ) *builtWorld {
@@ -203,11 +203,25 @@ func execScn(sc Scn) scnObs {
 	var out scnObs
 	out.sub = sub
 	for _, c := range sc.Calls {
-		srv.Pub.SetRoot(w.CidOf(c.PubHead))
+		if c.T != "race" {
+			srv.Pub.SetRoot(w.CidOf(c.PubHead))
+		}
 		srv.TakeLog()
 		var co callObs
 		var ret cid.Cid
 		isAd := c.T == "ad"
+		if c.T == "race" {
+			srv.TakeLog()
+			parked, status := srv.HeadRequestAcross(pubKey, w.CidOf(c.PubHead), w.CidOf(c.Head))
+			co.err = fmt.Sprintf("parked=%v status=%d", parked, status)
+			co.ret, co.hookPeer = "nil", true
+			srv.TakeLog()
+			if l := sub.S.GetLatestSync(srv.PeerID); l != nil {
+				co.latest = rankOf(w, l.(cidlink.Link).Cid)
+			}
+			out.calls = append(out.calls, co)
+			continue
+		}
 		if c.T == "hide" {
 			var hid []cid.Cid
 			for _, r := range c.Hide {
@@ -713,6 +727,10 @@ func checkSeq(sc Scn, o scnObs) (string, string, string) {
 		switch c.T {
 		case "hide":
 			hidden = append([]int{}, c.Hide...)
+		case "race":
+			if len(co.hooks) != 0 || co.latest != latest {
+				return "seq-race-activity", sig("race-step-changed-subscriber"), "a head request of another client changed the subscriber"
+			}
 		case "remove", "idle":
 			if len(co.hooks) != 0 || len(co.reqs) != 0 {
 				return "seq-removal-activity", sig("removal-activity"), "removing the handler called the hook or requested blocks"
@@ -795,6 +813,8 @@ func callsSig(cs []CallJ) string {
 			parts = append(parts, fmt.Sprintf("ent%d", c.Ent))
 		case "hide":
 			parts = append(parts, fmt.Sprintf("hide%v", c.Hide))
+		case "race":
+			parts = append(parts, fmt.Sprintf("headreq(root%d)||SetRoot(%d)", c.PubHead, c.Head))
 		default:
 			parts = append(parts, c.T)
 		}
@@ -875,8 +895,12 @@ func coqCase(sc Scn, o scnObs) string {
 		coqZ(sc.Cfg.EntriesDepth), vlib.CoqBool(sc.Cfg.Strict), coqHook(sc.Cfg.Hook), coqOptCid(sc.Cfg.LastKnown))
 	st := fmt.Sprintf("(ST %s %s)", coqOptCid(sc.Latest), coqCids(sc.Pre))
 	var calls []string
+	curHidden := append([]int{}, sc.Hidden...)
 	for i, c := range sc.Calls {
 		var ct string
+		if c.T == "hide" {
+			curHidden = append([]int{}, c.Hide...)
+		}
 		switch c.T {
 		case "ad":
 			ct = fmt.Sprintf("(CAd (ADCALL %s %s %s %s %s %s %s))", coqOptCid(c.Head), coqOptCid(c.Stop), vlib.CoqBool(c.Resync),
@@ -899,6 +923,10 @@ func coqCase(sc Scn, o scnObs) string {
 			ct = fmt.Sprintf("(CSel %s %s %s %d)", selView(c.Sel), coqOptCid(c.Stop), lim, c.Ent)
 		case "hide":
 			ct = "(CHide " + coqCids(c.Hide) + ")"
+		case "race":
+			// the publisher's root moved while a head request was in flight: nothing changes for
+			// the subscriber; the publisher's head afterwards is the a_pubhead of the later calls
+			ct = "(CHide " + coqCids(curHidden) + ")"
 		}
 		co := o.calls[i]
 		ret := "RErr"
